@@ -25,6 +25,9 @@ def cases(tier, seed):
         o = {}
         if i % 4 == 0:
             o = dict(district=True, estimator="bootstrap" if i % 8 == 0 else None, must_aggregates=["county_fips"])
+        if i % 4 == 1:  # hamlet counties: groups whose predicted turnout is a fraction of a vote
+            o = dict(el_tiny_county=True, estimator="bootstrap" if i % 8 == 1 else None, must_aggregates=["county_fips"],
+                     feed_frac_reporting=0.5, feed_p_partial=0.2)
         out.append(dict(seed=seed, i=i, o=o))
     return out
 
